@@ -220,6 +220,63 @@ func checkC18(w *World, r *Report) {
 			r.Bad("C18.amount", "event "+k+" has no constructed Amount", "", "an amount-carrying event is emitted but its Amount is never assigned in production code")
 		}
 	}
+	// every distribution built for a sub-distributor is emitted
+	r.Rule("C18.emitall", "P5", "the distributor's block routine emits every Distribution returned for a sub-distributor (every iteration of the loop over the full slice) and the burn event whenever one was built", 2)
+	if bb := w.Func("x/cfedistributor.BeginBlocker"); bb != nil {
+		var sdp *ssa.Call
+		for _, s := range cg.Sites[bb] {
+			if calleeIs(s, "x/cfedistributor/keeper.Keeper.StartDistributionProcess") {
+				sdp = siteCall(s)
+			}
+		}
+		okLoop, okBurn := false, false
+		if sdp != nil {
+			var dists, burn ssa.Value
+			for _, ref := range *sdp.Referrers() {
+				if ex, ok := ref.(*ssa.Extract); ok {
+					switch ex.Index {
+					case 1:
+						dists = ex
+					case 2:
+						burn = ex
+					}
+				}
+			}
+			for _, l := range rangeLoops(bb) {
+				if l.Over == dists && dists != nil {
+					okLoop = loopBodyMustPass(l, func(b *ssa.BasicBlock) bool {
+						for _, in := range b.Instrs {
+							if c, ok := in.(*ssa.Call); ok && strings.HasSuffix(callName(c.Common()), "EventManager.EmitTypedEvent") {
+								return true
+							}
+						}
+						return false
+					})
+				}
+			}
+			// burn: emitted on the non-nil edge, and nothing else decides
+			if burn != nil {
+				for _, s := range cg.Sites[bb] {
+					if cg.Atom(s) == EventEmit {
+						a := s.Args()
+						if mi, ok := a[0].(*ssa.MakeInterface); ok && mi.X == burn {
+							edges := NilEdges(bb, map[ssa.Value]bool{burn: true}, false)
+							// the emit block is exactly the non-nil successor (no further condition)
+							for _, e := range edges {
+								if e.To() == s.Instr.Block() || e.To().Dominates(s.Instr.Block()) && len(e.To().Succs) <= 1 {
+									okBurn = true
+								}
+							}
+						}
+					}
+				}
+			}
+		}
+		r.Check(okLoop, "C18.emitall", "every Distribution of the sub-distributor is emitted", w.Pos(bb.Pos()), "range over the full slice returned by StartDistributionProcess, emit on every iteration", "some distribution events are not emitted: a block's events would not add up to the inflow")
+		r.Check(okBurn, "C18.emitall", "the DistributionBurn is emitted whenever it was built", w.Pos(bb.Pos()), "emitted on the burn != nil edge", "the burn event can be dropped")
+	} else {
+		r.Unk("infra.anchor", "x/cfedistributor.BeginBlocker", "", "anchor not found")
+	}
 	// mint event only after a successful Mint
 	if bb := w.Func("x/cfeminter.BeginBlocker"); bb != nil {
 		for _, s := range cg.Sites[bb] {
